@@ -470,6 +470,7 @@ fn define_inherent_impl(
             continue;
         }
 
+        let reported_before = diagnostics.len();
         // Combine impl generics and method generics
         let mut all_generics = impl_block.generics.clone();
         all_generics.extend(m.generics.clone());
@@ -496,6 +497,16 @@ fn define_inherent_impl(
             }
             None => tast::Ty::TUnit,
         };
+
+        if diagnostics.len() == reported_before {
+            report_undetermined_type_params(
+                diagnostics,
+                &m.generics,
+                &params,
+                &ret,
+                &method_name_str,
+            );
+        }
 
         let impl_method_ty = tast::Ty::TFunc {
             params: params.clone(),
@@ -540,7 +551,37 @@ fn define_inherent_impl(
     }
 }
 
+/// There is no explicit instantiation syntax: a type parameter that the signature does not
+/// mention can never be inferred at a call and would survive monomorphisation. Only called
+/// for a signature that is otherwise valid, so that nothing is piled on its errors.
+fn report_undetermined_type_params(
+    diagnostics: &mut Diagnostics,
+    generics: &[hir::HirIdent],
+    params: &[tast::Ty],
+    ret: &tast::Ty,
+    function: &str,
+) {
+    for generic in generics.iter() {
+        let generic = generic.to_ident_name();
+        let determined = params
+            .iter()
+            .chain(std::iter::once(ret))
+            .any(|ty| super::util::ty_mentions_param(ty, &generic));
+        if !determined {
+            diagnostics.push(Diagnostic::new(
+                Stage::Typer,
+                Severity::Error,
+                format!(
+                    "Type parameter {} of function {} does not occur in its signature",
+                    generic, function
+                ),
+            ));
+        }
+    }
+}
+
 fn define_function(env: &mut PackageTypeEnv, diagnostics: &mut Diagnostics, func: &hir::Fn) {
+    let reported_before = diagnostics.len();
     let name = func.name.clone();
     let tparam_names = type_param_name_set(&func.generics);
     let generics_tast: Vec<tast::TastIdent> = func
@@ -572,6 +613,9 @@ fn define_function(env: &mut PackageTypeEnv, diagnostics: &mut Diagnostics, func
             format!("Function {} is already defined", name),
         ));
         return;
+    }
+    if diagnostics.len() == reported_before {
+        report_undetermined_type_params(diagnostics, &func.generics, &params, &ret, &name);
     }
     env.current_mut().value_env.funcs.insert(
         name,
